@@ -753,7 +753,7 @@ def run(ctx, deep=False):
         for key, detail in problems:
             ctx.violation(key, jc, detail)
         cases.append(jc)
-        if len(ctx.violations) >= 25:  # enough evidence; a broken tree can make every history slow
+        if sum(1 for v_ in ctx.violations if v_["key"] not in (KEY_ABA, KEY_INSDEL)) >= 25:  # enough evidence; a broken tree can make every history slow
             impl_out.append(canon(line, case["variant"]))
             reqs.append(request(case))
             break
